@@ -1438,3 +1438,81 @@ Proof.
   destruct (stored r dst); [exists Err; split; auto; discriminate|].
   unfold move_checked. cbn [existsb snd]. rewrite LX. cbn. exists Err; split; auto; discriminate.
 Qed.
+
+(* ---- move of one source that is absent from the workspace ---------------------------------------------------------------------------- *)
+Definition dest_method (o : move_opts) (x : frec) : method := match m_as o with Some m => m | None => r_method x end.
+Definition both_copy (o : move_opts) (x : frec) : bool :=
+  match r_method x, dest_method o x with Copy, Copy => true | _, _ => false end.
+
+Lemma move_loop_absent_single fl o f e x d :
+  ws_exists f (r_path x) = false -> beqb (r_path x) d = false ->
+  (fixed_mv_absent fl = true \/ both_copy o x = false) ->
+  exists ups, move_loop fl o f [(e, x, d)] [] [] = (f, Some (ups, [d])).
+Proof.
+  intros A NE H. cbn [move_loop]. unfold both_copy, dest_method in H.
+  destruct (r_method x) eqn:SM; destruct (match m_as o with Some m => m | None => _ end) eqn:DM;
+    rewrite ?A; cbn [app]; eauto.
+  rewrite NE. destruct H as [H|H]; [|discriminate]. rewrite H. cbn. eauto.
+Qed.
+
+Theorem move_absent_source fl o src dst r e x dg c :
+  wf_fs (xfs r) -> wf_recs (base r) ->
+  sources r src = [(e, x)] -> ends_slash dst = false -> stored r dst = false -> ws_lexists (xfs r) dst = false ->
+  wget (xfs r) (r_path x) = None ->
+  r_digest x = Some dg -> extension dst = extension (r_path x) -> holds (xfs r) (cache_addr (r_path x) dg) c ->
+  (fixed_mv_absent fl = true \/ both_copy o x = false) ->
+  exists r', move_cmd fl o src dst r = (r', Ok) /\
+    (forall e' y, In (e', y) (recs (base r')) -> r_path y <> r_path x) /\
+    (m_no_recheck o = false -> ws_read (xfs r') dst = Some c).
+Proof.
+  intros Wf Wr SR ES ST LX AB RD EX HO FX.
+  assert (IN : In (e, x) (recs (base r))) by (apply (sources_in r src); rewrite SR; now left).
+  assert (NE : beqb (r_path x) dst = false).
+  { destruct (beqb_spec (r_path x) dst) as [EQ|]; auto. exfalso. eapply (stored_false_no_record r dst ST); eauto. }
+  assert (WD : wget (xfs r) dst = None) by (unfold ws_lexists in LX; destruct (wget (xfs r) dst); [discriminate|reflexivity]).
+  assert (ABm : ws_meta (xfs r) (r_path x) = None) by (unfold ws_meta; rewrite AB; reflexivity).
+  assert (ABe : ws_exists (xfs r) (r_path x) = false) by (apply ws_exists_none; auto).
+  assert (PL : move_plan src dst r = MPlanned [(e, x, dst)]).
+  { unfold move_plan. rewrite SR, ES. cbn [length Nat.ltb Nat.leb andb existsb snd].
+    rewrite (absent_not_changed r x ABm), ST. cbn [orb]. unfold move_checked. cbn [existsb snd]. rewrite LX. reflexivity. }
+  pose proof (move_plan_is_ok src dst r _ Wr PL) as OKP.
+  unfold move_cmd. rewrite PL.
+  destruct (move_apply fl o r [(e, x, dst)]) as [r' oc] eqn:E.
+  destruct (move_apply_spec fl o r _ r' oc Wf Wr OKP E) as (_ & _ & _ & RES & _).
+  destruct (RES e x dst (or_introl eq_refl)) as (NOS & _).
+  (* the run of move_apply on the single pair *)
+  unfold move_apply in E. destruct Wr as [K P F]. destruct OKP as [MI MN MJ MD MU MF].
+  destruct (move_paths_spec [(e, x, dst)] r K MD) as (K1 & F1 & N1 & C1 & L1).
+  set (r1 := fold_left move_path_one [(e, x, dst)] r) in *.
+  assert (ABe1 : ws_exists (xfs r1) (r_path x) = false) by (rewrite F1; exact ABe).
+  destruct (move_loop_absent_single fl o (xfs r1) e x dst ABe1 NE FX) as (ups & ML).
+  match type of E with context [move_loop ?a1 ?a2 ?a3 ?a4 ?a5 ?a6] =>
+    replace (move_loop a1 a2 a3 a4 a5 a6) with (xfs r1, Some (ups, [dst])) in E by (symmetry; exact ML) end.
+  destruct (set_methods_spec ups (base (set_xfs r1 (xfs r1))) K1) as (K3 & F3 & N3 & L3 & B3 & C3).
+  set (r3 := set_base (set_xfs r1 (xfs r1)) (fold_left set_method ups (base (set_xfs r1 (xfs r1))))) in *.
+  assert (X3 : xfs r3 = xfs r).
+  { change (fs (fold_left set_method ups (base (set_xfs r1 (xfs r1)))) = xfs r). rewrite F3. exact F1. }
+  destruct (m_no_recheck o) eqn:NR.
+  - injection E as <- <-. exists r3. rsplit; auto. discriminate.
+  - (* the record of the destination in r3 *)
+    assert (I1 : In (e, moved x dst) (recs (base r1))) by (apply C1; left; exists x, dst; split; [now left|reflexivity]).
+    destruct (C3 _ _ I1) as (y & Iy & (SP & SM & SD & SH & ST')).
+    assert (FP : find_path (recs (base r3)) dst = Some (e, y)).
+    { destruct (find_path_some_of_In _ dst _ _ Iy SP) as ([e' y'] & FP). transitivity (Some (e', y')); [exact FP|].
+      destruct (find_path_In _ _ _ _ FP) as (I' & P').
+      destruct (B3 _ _ I') as (v & Iv & (SPv & _)).
+      apply C1 in Iv. destruct Iv as [(x0 & d0 & [J|[]] & ->)|[_ Iv]].
+      - injection J as -> _ _. apply (In_get _ _ _ K3) in I'. apply (In_get _ _ _ K3) in Iy. congruence.
+      - exfalso. eapply (stored_false_no_record r dst ST); [exact Iv|congruence]. }
+    assert (HO3 : holds (xfs r3) (cache_addr dst dg) c) by (rewrite X3, (same_ext_same_addr _ _ dg EX); exact HO).
+    assert (Wf3 : wf_fs (xfs r3)) by (rewrite X3; exact Wf).
+    destruct (recheck_dests_succeeds [dst] r3 Wf3) as (r4 & RDS).
+    + constructor; [intros []|constructor].
+    + intros p [<-|[]]. exists e, y, dg, c. rsplit; auto; [cbn in SD; congruence|]. right. rewrite X3. exact WD.
+    + assert (E' : recheck_dests r3 [dst] = (r', oc)) by exact E. rewrite RDS in E'. injection E' as <- <-.
+      exists r4. rsplit; auto. intros _.
+      destruct (recheck_dests_spec _ _ _ _ Wf3 RDS) as (_ & _ & _ & _ & _ & RD2).
+      assert (NDd : NoDup [dst]) by (constructor; [intros []|constructor]).
+      assert (DGy : r_digest y = Some dg) by (cbn in SD; congruence).
+      exact (RD2 eq_refl NDd dst e y dg c (or_introl eq_refl) FP DGy HO3).
+Qed.
